@@ -399,7 +399,8 @@ def unit_native(module, func, name, props, kwargs=None):
     t0 = time.time()
     out = native_batch([{"op": "func", "module": module, "func": func,
                          "kwargs": {k: enc(v) for k, v in (kwargs or {}).items()}}])[0]
-    res = {"unit": name, "vcs": [], "paths": 0, "unsupported": [], "error": None, "native": True}
+    res = {"unit": name, "vcs": [], "paths": 0, "unsupported": [], "error": None, "native": True,
+           "native_module": module, "native_func": func, "native_kwargs": {k: enc(v) for k, v in (kwargs or {}).items()}}
     if not out["ok"]:
         res["error"] = out["error"] + "\n" + out.get("trace", "")
         res["wall"] = time.time() - t0
